@@ -339,6 +339,7 @@ func (cr *checkRun) report(verif, evPath string, seed int, t0 time.Time, writeBa
 	var samples []map[string]interface{}
 	fnDis := map[string]int{}
 	seen := map[string]bool{}
+	var otherProps []string
 	for _, o := range cr.obs {
 		seen[o.Name] = true
 		solverSecs += o.Secs
@@ -355,6 +356,12 @@ func (cr *checkRun) report(verif, evPath string, seed int, t0 time.Time, writeBa
 			fmt.Printf("  FAILED %s: %s (%s) %s %s\n", o.Name, o.Status, o.Solver, o.Pos, truncate(o.Detail+" "+o.Model, 1500))
 		}
 		inBase := base[o.Name]
+		if !relevantTo(o, cr.prop) && known.match(cr.prop, o.Name) == nil {
+			// an obligation that belongs to other properties of the same function: their checks
+			// report it; it is not an alarm for this property
+			otherProps = append(otherProps, o.Name)
+			continue
+		}
 		switch {
 		case o.Status == "refuted":
 			viols = append(viols, violation{name: o.Name, reason: "refuted by " + o.Solver, detail: o.Model})
@@ -420,6 +427,10 @@ func (cr *checkRun) report(verif, evPath string, seed int, t0 time.Time, writeBa
 		}
 		fmt.Printf("VIOLATION property=%s replay=%s%s\n", cr.prop, rp, suffix)
 		fmt.Printf("  obligation: %s\n  reason: %s\n", v.name, v.reason)
+	}
+	if len(otherProps) > 0 {
+		sort.Strings(otherProps)
+		fmt.Printf("NOTE: %d undischarged obligations of this run speak about other properties of the same functions and are left to their checks, e.g. %s\n", len(otherProps), otherProps[0])
 	}
 	sort.Strings(knownPrinted)
 	for _, k := range knownPrinted {
@@ -499,6 +510,56 @@ func (cr *checkRun) report(verif, evPath string, seed int, t0 time.Time, writeBa
 func round3(f float64) float64 { return float64(int(f*1000)) / 1000 }
 
 var propAssumptions = map[string][]string{}
+
+// ---- relevance of an obligation to the property being checked ------
+//
+// A function is usually under contract for several properties and its contract is verified as a
+// whole, but a failed obligation is an alarm only for the properties it speaks about:
+//   * run-time-safety obligations (bounds, nil, make length, division, explicit panic) belong to
+//     the properties whose claim includes absence of panics;
+//   * a clause that mentions the ghost state or the spec vocabulary of particular properties
+//     (I/O-failure flag, write log, exit status, path functions, hashes, ID order) belongs to those;
+//   * everything else (and every clause tagged explicitly with @Cxx) belongs to all properties of
+//     the function.
+var runtimeSafetyKinds = map[string]bool{"bounds": true, "nil": true, "nilmap": true, "makelen": true, "div0": true, "shift": true, "typeassert": true, "panic": true, "panic-allowed": true, "pre-nopanic": true}
+var safetyProps = map[string]bool{"C13": true, "C19": true, "C08": true, "C09": true, "C11": true, "C07": true, "C12": true, "C04": true, "C10": true}
+var vocabulary = []struct {
+	tokens []string
+	props  []string
+}{
+	{[]string{"gIOFailed"}, []string{"C18"}},
+	{[]string{"gWrites", "gLastWriteOK", "gLastWritePath"}, []string{"C02", "C14"}},
+	{[]string{"gRepairCalls", "gRepairOK", "gRepairNotEnough", "exitCode", "os.Exit"}, []string{"C20"}},
+	{[]string{"pathJoin(", "pathDir(", "pathBase(", "pathRel(", "pathAbs(", "pathClean(", "pathIsAbs(", "fpIsAbs(", "safeName("}, []string{"C15", "C17", "C05"}},
+	{[]string{"md5("}, []string{"C02", "C03", "C04", "C05", "C10", "C14", "C13", "C19"}},
+	{[]string{"ult("}, []string{"C05", "C17"}},
+}
+
+func relevantTo(o *Oblig, prop string) bool {
+	if o.preSolved || o.fc == nil {
+		return true // static / call-graph / assembly obligations are generated per property
+	}
+	if runtimeSafetyKinds[o.Kind] {
+		return safetyProps[prop]
+	}
+	if o.Kind == "forkjoin" {
+		return prop == "C12" || prop == "C07"
+	}
+	tags := map[string]bool{}
+	for _, v := range vocabulary {
+		for _, t := range v.tokens {
+			if strings.Contains(o.Desc, t) {
+				for _, p := range v.props {
+					tags[p] = true
+				}
+			}
+		}
+	}
+	if len(tags) == 0 {
+		return true
+	}
+	return tags[prop]
+}
 
 // ---- known findings -----------------------------------------------
 
